@@ -41,12 +41,22 @@ def c10(run):
     from streams import near_whitespace
     for ch in near_whitespace():
         cases.append(("iban", "DE89" + ch + "370400440532013000"))
+    # long whitespace runs / long raw texts (lengths around powers of two and beyond)
+    for n in (60, 100, 127, 128, 129, 200, 255, 256, 257, 511, 513, 1000, 1025, 4097, 70000):
+        for base in ("DE89370400440532013000", S.iban(), "GENODEM1GLS"):
+            kind = "bic" if len(base) == 11 else "iban"
+            p = S.r.randrange(1, len(base))
+            cases.append((kind, base[:p] + " " * n + base[p:]))
+            cases.append((kind, "\t" * n + base))
+            cases.append((kind, base + "\n" * n))
+            cases.append((kind, base + " " * n + "99"))
+            cases.append((kind, (" " * (n // len(base))).join(base)))
     # every whitespace code point at least once, at every kind of place
     for w in spaces:
         cases.append(("iban", w + "DE89" + w + w + "370400440532013000" + w))
         cases.append(("bic", "GENO" + w + "DEM1GLS" + w))
     for kind, base in cases:
-        var = S.decorate(base)
+        var = S.decorate(base) if len(base) < 400 else base.replace(" ", "\u2003").swapcase()
         c = common.clean(base)
         if kind == "iban":
             a = real(["iban.new", hx(base), "F", "F"])
@@ -1321,3 +1331,84 @@ def c09(run):
         if len(nb) != len(b) or any(nb[p] != b[p] for p in covered):
             run.violation("BBAN.from_components(components of a valid IBAN)", [cc, b], nb, b,
                           "rebuilt BBAN differs at a position covered by a component", op=f)
+
+
+# --------------------------------------------------------------------------- C16
+@prop("C16",
+      rule="pairs drawn from {IBAN, BIC, BBAN, str} x {valid, invalid, equal, case/whitespace variants, "
+           "prefix-related (8 vs 11 characters, ...XXX), neighbours in code-point order}: all six comparison "
+           "operators, hash equality, dict lookup, sorted(); copy / deepcopy / pickle protocols 0-5 of valid and "
+           "unvalidated objects incl. the BBAN held by an IBAN; pickles re-loaded in a fresh interpreter under "
+           "another PYTHONHASHSEED; non-trivial = distinct pair / object",
+      note="comparison laws proved for the model; copy protocol proved from class facts of the live classes; "
+           "CPython's copyreg/pickle are trusted and exercised")
+def c16(run):
+    import pickle
+    import subprocess
+    import sys as _sys
+    from realops import IBAN, BIC, BBAN, REPO
+    S = Streams(run.seed * 1000 + 16)
+    r = S.r
+    bics = sorted({e["bic"] for e in S.banks if e["bic"]})
+    texts = []
+    for _ in range(run.scale(60, 1500)):
+        i = S.iban()
+        b = r.choice(bics)
+        texts += [("iban", i), ("iban", S.decorate(i)), ("iban", S.mutate(i)), ("bic", b), ("bic", b[:8]),
+                  ("bic", b[:8] + "XXX"), ("bic", S.mutate(b)), ("bban:" + hx(i[:2]), i[4:]),
+                  ("bban:" + hx("XX"), i[4:]), ("str", i), ("str", i.lower()), ("str", b), ("str", i[:-1]),
+                  ("str", i + "0"), ("iban", i[:-1] + chr(ord(i[-1]) + 1)), ("str", ""), ("iban", "")]
+    ops = []
+    for _ in range(run.scale(2500, 80000)):
+        a = r.choice(texts)
+        b = r.choice(texts) if r.random() < 0.6 else (r.choice(["iban", "bic", "str", a[0]]), a[1])
+        ops.append(["obj.cmp", a[0], hx(a[1]), b[0], hx(b[1])])
+    for b8 in r.sample(bics, 40):
+        for x, y in ((b8[:8], b8[:8] + "XXX"), (b8[:8] + "XXX", b8[:8])):
+            for k1 in ("bic", "str"):
+                for k2 in ("bic", "str"):
+                    ops.append(["obj.cmp", k1, hx(x), k2, hx(y)])
+    hows = ["copy", "deepcopy"] + ["pickle%d" % p for p in range(6)]
+    objs = r.sample(texts, min(len(texts), run.scale(120, 2000)))
+    for k, t in objs:
+        if k == "str":
+            continue
+        for how in hows:
+            ops.append(["obj.copy", k, hx(t), how])
+    reals, model = run.correspond("values", ops)
+    for f, a in zip(ops, reals):
+        if f[0] == "obj.cmp":
+            v = a.split(" ")[1:]
+            eq = common.clean(unhx(f[2])) if f[1] != "str" else unhx(f[2])
+            eq2 = common.clean(unhx(f[4])) if f[3] != "str" else unhx(f[4])
+            want = [eq == eq2, eq != eq2, eq < eq2, eq <= eq2, eq > eq2, eq >= eq2, eq == eq2, eq == eq2]
+            if v != ["T" if w else "F" for w in want]:
+                run.violation("comparison operators / hash / dict", [f[1], unhx(f[2]), f[3], unhx(f[4])], a,
+                              "those of the compact strings", "operators vs compact-string semantics", op=f)
+        else:
+            if not a.startswith("ok ") or a.split(" ")[1] in ("WRONG-CLASS", "BBAN-MISMATCH", "NOT-EQUAL", "BBAN-SHARED"):
+                run.violation(f[3] + " of an object", [f[1], unhx(f[2])], a, "an equal object of the same class",
+                              "copy/pickle round trip", op=f)
+    # pickles (of objects that have been hashed) re-loaded in a fresh interpreter, other hash seed
+    blob = []
+    for k, t in objs[:40]:
+        if k == "str":
+            continue
+        o = IBAN(t, allow_invalid=True) if k == "iban" else BIC(t, allow_invalid=True) if k == "bic" else \
+            BBAN(unhx(k[5:]), t)
+        hash(o)
+        {o: 1}
+        blob.append(pickle.dumps(o, 4))
+    code = ("import sys, pickle; sys.path.insert(0, %r)\n"
+            "bad = 0\n"
+            "for b in pickle.loads(sys.stdin.buffer.read()):\n"
+            "    o = pickle.loads(b)\n"
+            "    if hash(o) != hash(str(o)) or {str(o): 1}.get(o) != 1 or o != str(o): bad += 1; print('BAD', type(o).__name__, repr(str(o)))\n"
+            "sys.exit(1 if bad else 0)\n") % REPO
+    env = dict(__import__("os").environ, PYTHONHASHSEED="4242")
+    p = subprocess.run([_sys.executable, "-c", code], input=pickle.dumps(blob), capture_output=True, env=env)
+    run.count(len(blob), tag="cross-process pickle")
+    if p.returncode != 0:
+        run.violation("pickle -> other process -> hash/dict lookup", [p.stdout.decode()[:300]],
+                      "hash(obj) != hash(str(obj)) after unpickling in a fresh interpreter",
+                      "hash of the compact string", "cross-process pickle", kind="history")
